@@ -169,3 +169,30 @@ def replay_witness(w, rp):
         repro = True
         detail += f' `not a {s1} b` parsed as {n or res[1]}, reference {exp_n}'
     return {'reproduced': repro, 'role': f'binding power: {w.get("what", "")[:60]}', 'detail': detail or 'parses as the reference', 'cases': cases}
+
+
+def validate(sess, rp):
+    """the restated Pratt rule is tied to the real parser: every ordered operator pair (and prefix `not` on either side)
+    is parsed natively and compared with the reference grouping"""
+    cases, meta = [], []
+    for t1 in REF:
+        for t2 in REF:
+            s1, s2 = REF[t1][2], REF[t2][2]
+            cases.append({'kind': 'parse', 'src': f'a {s1} b {s2} c'})
+            want = ref_group(t1, t2)
+            exp = 'error' if want == 'error' else (f'(a {s1} (b {s2} c))' if want == 'right' else f'((a {s1} b) {s2} c)')
+            meta.append((f'a {s1} b {s2} c', exp))
+        s1 = REF[t1][2]
+        p1 = REF[t1][1]
+        cases.append({'kind': 'parse', 'src': f'not a {s1} b'})
+        meta.append((f'not a {s1} b', f'(not (a {s1} b))' if p1 > NOT_LEVEL else f'((not a) {s1} b)'))
+        cases.append({'kind': 'parse', 'src': f'a {s1} not b'})
+        # `not` as a right operand is only grammatical after `and` / `or`
+        meta.append((f'a {s1} not b', f'(a {s1} (not b))' if p1 < NOT_LEVEL else 'error'))
+    res = rp.run(cases, 'dev')
+    mism = []
+    for (src, exp), g in zip(meta, res):
+        got = 'error' if 'err' in g else (g.get('printed') or '').strip()
+        if got != exp:
+            mism.append(f'`{src}` parses as {got}, reference {exp}')
+    return len(cases), mism
